@@ -1338,9 +1338,14 @@ class TermBuilder:
 
 def _free_helper(fi):
     """A private helper of the package that no rule names: looked through wherever it is called."""
-    from .inliner import anchor_names
+    from .inliner import anchor_names, named_by_rules
     n = fi.name
-    return n.startswith("_") and not n.startswith("__") and n not in anchor_names() and fi.parent is None and not isinstance(fi.node, ast.Lambda)
+    if isinstance(fi.node, ast.Lambda):
+        return False
+    if fi.parent is not None:
+        # a local helper function of the enclosing function (a small closure), unless some rule talks about it
+        return not n.startswith("__") and not named_by_rules(n)
+    return n.startswith("_") and not n.startswith("__") and n not in anchor_names()
 
 
 def _own_walk(fnode):
